@@ -6,4 +6,5 @@ CONSTANTS
   LatePool <- g4LatePool
   FirstMatch = TRUE
   RT = FALSE
+  Reduce = FALSE
 CHECK_DEADLOCK FALSE
